@@ -983,6 +983,15 @@ impl Interpreter {
 
         // Restore environment and finalize exports if we used a module environment
         if let (Some(saved), Some(module_env)) = (saved_env, module_env) {
+            if let Ok(StepResult::Suspended { .. }) = &result {
+                // The run continues through step(): its scopes stay current until it ends
+                // (finalize_active_execution then restores the environment and stores the exports)
+                self.active_saved_env = Some(saved);
+                self.active_module_env = Some(module_env);
+                self.active_module_path = module_path;
+                return result;
+            }
+
             self.env = saved;
 
             // If execution completed successfully, store the main module exports
